@@ -104,7 +104,7 @@ variable [Transc K] [Eps K]
 /-- two cubics with a common point have overlapping (closed) fast bounding boxes -/
 theorem boxes_overlap_of_common (c1 c2 : Cubic K) (s u : K) (hs : In01 s) (hu : In01 u)
     (h : c1.sample s = c2.sample u) :
-    rectanglesOverlap c1.fastBoundingBox c2.fastBoundingBox = true := by
+    rectanglesOverlap c1.ixFastBoundingBox c2.ixFastBoundingBox = true := by
   have hx : (c1.sample s).x = (c2.sample u).x := by rw [h]
   have hy : (c1.sample s).y = (c2.sample u).y := by rw [h]
   rw [sample_x_bern, sample_x_bern] at hx
@@ -119,7 +119,7 @@ theorem boxes_overlap_of_common (c1 c2 : Cubic K) (s u : K) (hs : In01 s) (hu : 
   have y4 := min_le_bern c2.a.y c2.c1.y c2.c2.y c2.b.y u hu.1 hu.2
   unfold rectanglesOverlap
   simp only [Bool.and_eq_true, decide_eq_true_eq]
-  refine ⟨⟨⟨?_, ?_⟩, ?_⟩, ?_⟩ <;> simp only [Cubic.fastBoundingBox, sc_min, sc_max] <;> linarith
+  refine ⟨⟨⟨?_, ?_⟩, ?_⟩, ?_⟩ <;> simp only [Cubic.ixFastBoundingBox, sc_min, sc_max] <;> linarith
 
 /-! ### consistency of the sub-curves with the domains -/
 
@@ -152,7 +152,7 @@ theorem inDom_halves (d : K × K) (t : K) (h : InDom d t) :
 
 /-- the clip step refines the first domain without losing the crossing -/
 theorem clip_refines (a : Args K) (hc : Consistent a) (t1 t2 : K) (hx : Crossing a t1 t2) :
-    rectanglesOverlap a.c1.fastBoundingBox a.c2.fastBoundingBox = true
+    rectanglesOverlap a.c1.ixFastBoundingBox a.c2.ixFastBoundingBox = true
     ∧ ∃ clip, restrictCurveToFatLine a.c1 a.c2 = some clip ∧ In01 clip.1 ∧ In01 clip.2
         ∧ InDom (newDomain1 a clip) t1 := by
   obtain ⟨⟨s, hs, h1⟩, ⟨u, hu, h2⟩, hsame⟩ := hx
